@@ -21,4 +21,24 @@ PROPS = {
         "trusted": ["String::bytes / to_ascii_lowercase / serde_json string decoding are not modelled"],
         "assumptions": ["names are modelled as byte lists; the model's Nat bytes are unbounded (the property does not depend on < 256)"],
     },
+    "C02": {
+        "lean_targets": ["Pep508.Theorems.C02"],
+        "theorems": [
+            "Pep508.C02.eval_and", "Pep508.C02.eval_or", "Pep508.C02.eval_not",
+            "Pep508.C02.OK_and", "Pep508.C02.OK_or", "Pep508.C02.OK_not",
+            "Pep508.C02.and_true_left", "Pep508.C02.and_true_right", "Pep508.C02.and_false_left",
+            "Pep508.C02.and_false_right", "Pep508.C02.and_self", "Pep508.C02.and_not_self",
+            "Pep508.C02.or_false_left", "Pep508.C02.or_true_left",
+            "Pep508.C02.eval_build", "Pep508.C02.eval_and_of_wf", "Pep508.Tree.OK_of_wf",
+        ],
+        "suites": [{"name": "algebra", "args": ["C02"]}],
+        "rule": "a pool of markers is built through the real API along random construction paths (parse-free typed expressions, and/or/negate, "
+                "simplify_extras, simplify/complexify_python_versions, plus shapes generated on purpose: >=3 edges whose children coincide after an op, "
+                "python_full_version below/above other variables); and/or/negate are applied to random pairs one step from LITERAL operands (the operand's "
+                "kind() dump is what the Lean model receives), result dumps are compared with the model, results are evaluated on region environments "
+                "(one value below/at/above every literal) and compared pointwise with the operands' values; identities/annihilators checked structurally; "
+                "non-trivial = distinct (op, operand dumps) case",
+        "trusted": ["values are an arbitrary linear order in the theorems; the driver instantiates them with release lists / strings (Val)"],
+        "assumptions": ["memoisation (the AND cache) and hash-consing are not part of this model; they are the subject of C14"],
+    },
 }
